@@ -62,6 +62,46 @@ DomTag(ev, N, ES, x) ==
   IF ev.t = "p32" /\ ev.op \in C15Ops /\ Len(x) = 1 /\ ~IsNaR(N, x[1]) /\ ~InDomain(ev.op, Val(N, ES, x[1]))
   THEN "out-of-domain" ELSE "in-domain"
 
+\* ---- generic-width types: t = "x1" / "x2", width n; values travel as the 32-bit left-aligned storage
+IsX(ev) == ev.t \in {"x1", "x2"}
+XSh(ev) == 32 - ev.n
+XRawArgOps == {"from_f32", "from_f64", "from_i32", "from_u32", "from_i64", "from_u64", "from_p8", "from_p16", "from_p32", "new", "const"}
+XPositResOps == {"add", "sub", "mul", "div", "neg", "mul_add", "mul_sub", "sub_product", "sqrt", "round", "min", "max", "clamp",
+                 "const", "from_f32", "from_f64", "from_i32", "from_u32", "from_i64", "from_u64", "from_p8", "from_p16", "from_p32"}
+\* operands as N-bit patterns
+XArgs(ev, raw) == IF ev.op \in XRawArgOps THEN raw ELSE [k \in 1 .. Len(raw) |-> Shr(raw[k], XSh(ev))]
+\* closure: the unused low 32-N bits of a generic value are zero (operands are generated that way;
+\* for results it is part of the property)
+XLowZero(ev, v) == Low(v, XSh(ev)) = <<>>
+XAccept(ev, N, ES, x, r) ==
+  CASE ev.op = "from_p8"  -> r = PConv(8, 0, N, ES, x[1])
+    [] ev.op = "from_p16" -> r = PConv(16, 1, N, ES, x[1])
+    [] ev.op = "from_p32" -> r = PConv(32, 2, N, ES, x[1])
+    [] ev.op = "new" -> r = Shr(x[1], XSh(ev))
+    [] OTHER -> (Pre(ev.op, N, ES, x) => Accept(ev.op, ev.sp, N, ES, x, r))
+GoodX(ev, F, raw) ==
+  LET N == F[1] ES == F[2] x == XArgs(ev, raw) IN
+  /\ ev.o = "ok"
+  /\ IF ev.op = "to_x" THEN
+        \* to the other exponent size, width m
+        LET M == ev.m ES2 == 3 - ES IN
+        /\ Low(ev.r, 32 - M) = <<>>
+        /\ Shr(ev.r, 32 - M) = PConv(N, ES, M, ES2, x[1])
+     ELSE IF ev.op \in XPositResOps THEN
+        /\ (ev.op # "new" => XLowZero(ev, ev.r))
+        /\ XAccept(ev, N, ES, x, Shr(ev.r, XSh(ev)))
+     ELSE XAccept(ev, N, ES, x, ev.r)
+DiagX(ev, F, raw) ==
+  LET N == F[1] ES == F[2] x == XArgs(ev, raw) IN
+  IF ev.o # "ok" THEN <<"outcome", ev.o, "in-domain">>
+  ELSE IF ev.op = "to_x" THEN <<"expected", Shl(PConv(N, ES, ev.m, 3 - ES, x[1]), 32 - ev.m)>>
+  ELSE IF ev.op \in {"from_p8", "from_p16", "from_p32"} THEN
+       <<"expected", Shl(PConv(IF ev.op = "from_p8" THEN 8 ELSE IF ev.op = "from_p16" THEN 16 ELSE 32,
+                               IF ev.op = "from_p8" THEN 0 ELSE IF ev.op = "from_p16" THEN 1 ELSE 2, N, ES, x[1]), XSh(ev))>>
+  ELSE IF ev.op \in FnOps /\ ev.op \in XPositResOps THEN <<"expected", Shl(Fn(ev.op, ev.sp, N, ES, x), XSh(ev))>>
+  ELSE IF ev.op \in FnOps THEN <<"expected", Fn(ev.op, ev.sp, N, ES, x)>>
+  ELSE <<"relation-violated">>
+
 GoodCall(ev, F, x) ==
   /\ ev.o = "ok"
   /\ OperandsMatch(ev)
@@ -71,11 +111,13 @@ GoodCall(ev, F, x) ==
      ELSE (Pre(ev.op, F[1], F[2], x) => Accept(ev.op, ev.sp, F[1], F[2], x, ev.r))
 GoodOp(ev) ==
   LET F == Fmt(ev.t, EvN(ev)) x == X(ev) IN
-  IF ev.o = "panic" THEN StubOk(ev, F[1], F[2], x) ELSE GoodCall(ev, F, x)
+  IF IsX(ev) THEN GoodX(ev, F, x)
+  ELSE IF ev.o = "panic" THEN StubOk(ev, F[1], F[2], x) ELSE GoodCall(ev, F, x)
 
 DiagOp(ev) ==
   LET F == Fmt(ev.t, EvN(ev)) x == X(ev) IN
-  IF ev.o # "ok" THEN <<"outcome", ev.o, DomTag(ev, F[1], F[2], x)>>
+  IF IsX(ev) THEN DiagX(ev, F, x)
+  ELSE IF ev.o # "ok" THEN <<"outcome", ev.o, DomTag(ev, F[1], F[2], x)>>
   ELSE IF ~OperandsMatch(ev) THEN <<"operands-do-not-match-registers">>
   ELSE IF ev.op = "poly" THEN <<"expected", PolyEv(ev, F)>>
   ELSE IF IsElem(ev) THEN <<"enclosure-outside-allowed-cells", IF ev.t = "p32" THEN Bound(ev.op) ELSE 0>>
@@ -96,9 +138,11 @@ StepOp(ev) ==
 QW(ev) == IF ev.t = "p8" THEN 32 ELSE IF ev.t = "p16" THEN 128 ELSE IF ev.t = "x1" THEN 128 ELSE 512
 QFr(ev) == IF ev.t = "p8" THEN 12 ELSE IF ev.t = "p16" THEN 56 ELSE IF ev.t = "x1" THEN 56 ELSE 240
 
+\* generic operands of quire events are unshifted to N-bit patterns
+U(ev, v) == IF ev.t \in {"x1", "x2"} THEN Shr(v, 32 - ev.n) ELSE v
 \* the sequence of <<a, b>> product terms a multi-term spelling stands for (macros.rs)
 Terms(ev) ==
-  CASE ev.sp \in {"pp", "m", "tr"} -> << <<ev.a, ev.b>> >>
+  CASE ev.sp \in {"pp", "m", "tr"} -> << <<U(ev, ev.a), U(ev, ev.b)>> >>
     [] ev.sp = "p3"  -> << <<ev.a, ev.b>>, <<ev.a, ev.c>> >>
     [] ev.sp = "p4"  -> << <<ev.a, ev.b>>, <<ev.a, ev.c>>, <<ev.a, ev.e>> >>
     [] ev.sp = "p22" -> << <<ev.a, ev.c>>, <<ev.a, ev.e>>, <<ev.b, ev.c>>, <<ev.b, ev.e>> >>
@@ -114,11 +158,11 @@ QNext(ev, q) ==
   LET F == Fmt(ev.t, EvN(ev)) N == F[1] ES == F[2] W == QW(ev) QF == QFr(ev) IN
   CASE ev.op \in {"q_init", "q_clear"} -> QZero
     [] ev.op = "q_neg" -> QNeg(q)
-    [] ev.op = "q_add" -> IF ev.sp = "p" THEN QAddPosit(W, QF, N, ES, q, ev.a, FALSE)
+    [] ev.op = "q_add" -> IF ev.sp = "p" THEN QAddPosit(W, QF, N, ES, q, U(ev, ev.a), FALSE)
                           ELSE FoldTerms(W, QF, N, ES, q, Terms(ev), 1, FALSE)
-    [] ev.op = "q_sub" -> IF ev.sp = "p" THEN QAddPosit(W, QF, N, ES, q, ev.a, TRUE)
+    [] ev.op = "q_sub" -> IF ev.sp = "p" THEN QAddPosit(W, QF, N, ES, q, U(ev, ev.a), TRUE)
                           ELSE FoldTerms(W, QF, N, ES, q, Terms(ev), 1, TRUE)
-    [] ev.op = "q_from_posit" -> QFromPosit(W, QF, N, ES, ev.a)
+    [] ev.op = "q_from_posit" -> QFromPosit(W, QF, N, ES, U(ev, ev.a))
     [] ev.op = "q_from_bits" -> QOfBits(W, QF, ev.a)
     [] OTHER -> q
 
@@ -137,7 +181,7 @@ GoodQ(ev) ==
   /\ ev.o = "ok"
   /\ IF ev.op \in QMutators THEN QObsOk(ev, QNext(ev, q))
      ELSE IF ~q.inr THEN TRUE
-     ELSE CASE ev.op = "q_to_posit" -> ev.r = QToPosit(N, ES, q)
+     ELSE CASE ev.op = "q_to_posit" -> ev.r = (IF ev.t \in {"x1", "x2"} THEN Shl(QToPosit(N, ES, q), 32 - N) ELSE QToPosit(N, ES, q))
             [] ev.op = "q_to_bits" -> ev.r = QBits(QW(ev), QFr(ev), q)
             [] ev.op = "q_is_zero" -> ev.r = QIsZero(q)
             [] ev.op = "q_is_nar" -> ev.r = QIsNaR(q)
@@ -149,7 +193,7 @@ DiagQ(ev) ==
   IF ev.o # "ok" THEN <<"outcome", ev.o>>
   ELSE IF ev.op \in QMutators THEN
        LET q2 == QNext(ev, q) IN <<"expected-bits", QBits(QW(ev), QFr(ev), q2), QIsZero(q2), QIsNaR(q2)>>
-  ELSE IF ev.op = "q_to_posit" THEN <<"expected", QToPosit(N, ES, q)>>
+  ELSE IF ev.op = "q_to_posit" THEN <<"expected", IF ev.t \in {"x1", "x2"} THEN Shl(QToPosit(N, ES, q), 32 - N) ELSE QToPosit(N, ES, q)>>
   ELSE IF ev.op \in {"q_split2", "q_split3"} THEN <<"expected", QSplit(QW(ev), QFr(ev), N, ES, q, 3)>>
   ELSE <<"observation-wrong", QBits(QW(ev), QFr(ev), q)>>
 
